@@ -2,15 +2,17 @@
 from .. import core, hist
 from ..gen import KEY_POOL, PREFIX, hx, rng_for
 
+EXTRA_PROP_MODULES = [("KB.Props.OrderC15", "KB.OrderC15")]
+
 ENGINES = ["memkv", "badger", "tikv"]
 
 
-def gen_case(seed, i, engine, heavy_failures):
+def gen_case(seed, i, engine, heavy_failures, real=None):
     r = rng_for(seed, "c15/%d" % i)
     keys = r.sample([k for k in KEY_POOL if b"events" not in k][:8], r.randint(2, 4))
     sh = hist.Shadow()
     # the first leader starts as every leader does: from the engine timestamp of its lock write
-    lines = [hist.cfg_line(engine, init=0), "restart"]
+    lines = [hist.cfg_line(engine, init=0), "restart id=n1"]
     # old leader's history; with heavy_failures most requests fail (they consume revisions without touching the engine)
     n = r.randint(3, 25)
     lines += hist.gen_writes(r, sh, n, keys, p_ok=0.15 if heavy_failures else 0.85, sync=False)
@@ -21,7 +23,10 @@ def gen_case(seed, i, engine, heavy_failures):
     lines += ["get %s 0" % hx(k) for k in keys]
     lines.append("list %s %s 0 0" % (hx(PREFIX + b"/"), hx(PREFIX + b"0")))
     lines.append("echo before-restart")
-    lines.append("restart")
+    # the take-over: either the harness's transcription of leader.go, or (real) the REAL
+    # leader.NewLeaderElection(...).Campaign() of a restarted node, optionally with the engine-timestamp read
+    # after its lock write failing
+    lines.append("restart" if real is None else "campaign id=n1" + (" f=tso" if real == "tso" else ""))
     lines.append("list %s %s 0 0" % (hx(PREFIX + b"/"), hx(PREFIX + b"0")))
     for k in keys:
         lines.append("get %s 0" % hx(k))
@@ -40,8 +45,16 @@ def oracle(case):
     max_rev_seen = 0
     for i, (line, out) in enumerate(zip(case.lines, case.impl)):
         t, o = line.split(), out.split()
-        if t[0] == "restart":
+        if t[0] in ("restart", "campaign"):
             phase += 1
+            if t[0] == "campaign":
+                if o[1] == "timeout":
+                    return ("the restarted node never became leader: %s -> %s" % (line, out), "no-leader")
+                if "early=1" in o:
+                    return ("the node reported itself leader before it installed its start revision (writes are gated by that flag only): %s" % out,
+                            "leader-before-start-revision")
+                if "sets=1" not in o:
+                    return ("the start revision was installed %s times: %s" % ([x for x in o if x.startswith("sets=")], out), "start-revision-sets")
             if phase == 2 and o[1] == "lag":
                 return ("new leader starts at engine timestamp %s although the store holds revision %s" % (o[2], o[3]),
                         "clock-lag-" + case.meta["engine"])
@@ -70,7 +83,7 @@ def oracle(case):
 
 def check(rep, tier, seed):
     n = 18 if tier == "quick" else 300
-    cases = [gen_case(seed, i, ENGINES[i % 3], heavy_failures=(i % 2 == 0)) for i in range(n)]
+    cases = [gen_case(seed, i, ENGINES[i % 3], heavy_failures=(i % 2 == 0), real=[None, "plain", "tso"][(i // 3) % 3]) for i in range(n)]
     core.run_cases(cases)
     for c in cases:
         rep.count_case(c)
@@ -79,5 +92,7 @@ def check(rep, tier, seed):
             if core.handle_oracle_hit(rep, "C15", hit[1], c, hit[0], hit[1]):
                 return
     rep.assumptions += ["memkv (wall-clock ns) and tikv (PD TSO): the engine clock advanced by more than the number of revisions issued — checked on every run, not proved",
-                        "the new leader is initialised as leader.go does: lock Get/Create/Update, Describe(), SetCurrentRevision(timestamp)",
+                        "the new leader is initialised (a) by the harness's transcription of leader.go: lock Get/Create/Update, Describe(), SetCurrentRevision(timestamp); "
+                        "(b) in two thirds of the cases by the real leader.NewLeaderElection(...).Campaign() (client-go elector) of a node restarted under the "
+                        "identity that holds the lock, half of those with the engine-timestamp read after its lock write failing",
                         "revisions after a restart are wall-clock/TSO values: the model is compared only up to the restart, the rest is judged by the oracle"]
